@@ -238,7 +238,9 @@ pub fn build_table_from_data(
             max_symbol = idx;
         }
     }
-    build_table_from_counts(&counts[..=max_symbol], max_log, avoid_0_numbit)
+    // Always normalise over at least two symbols: with a single-symbol alphabet `[n]` the
+    // zero-bit avoidance below has no second symbol to hand the redistributed half to.
+    build_table_from_counts(&counts[..=max_symbol.max(1)], max_log, avoid_0_numbit)
 }
 
 fn build_table_from_counts(counts: &[usize], max_log: u8, avoid_0_numbit: bool) -> FSETable {
